@@ -226,6 +226,30 @@ decorators:
 			*n = saved
 		}
 	}
+	// import paths of every shape in every position that holds a Go reference (registered as alias or not): one segment, major
+	// version suffixes with and without a base, dots, dashes, underscores, many segments, trailing/double slashes, quoted forms
+	paths := []string{"v2", "v10", "v0", "v1", "v", "V2", "v2x", "a/v2", "a/b/v3", "v2/v3", "v3/v2/v1", "x.y/z-w/v4", "a.b", "a-b", "a_b", "a/", "a//b", "a/b/", "gopkg.in/yaml.v3", "k8s.io/api/core/v1",
+		"a/v2/b", "v2.x", "a/v02", "a/v2.1", "0a", "a/0", "a/-", "a/.", "a/..", "x/y/z/w/v/u/t/s/r/q/p/o/n/m/l/k/j/i/h/g/f/e/d/c/b/a", "fmt", "context", "main", "go", "internal", "vendor/x", "C", "unsafe", "builtin"}
+	for _, n := range nodes {
+		if n.Kind != yaml.ScalarNode || !strings.Contains(n.Value, "pa.") && n.Value != "fixt/pa" {
+			continue
+		}
+		saved := *n
+		for _, pth := range paths {
+			for _, q := range []string{pth, `"` + pth + `"`} {
+				if saved.Value == "fixt/pa" {
+					n.Value = q
+				} else {
+					n.Value = strings.Replace(saved.Value, "pa.", q+".", 1)
+				}
+				n.Style = yaml.SingleQuotedStyle
+				if b, err := yaml.Marshal(&root); err == nil {
+					out = append(out, string(b))
+				}
+				*n = saved
+			}
+		}
+	}
 	// keys of other kinds, merge keys, aliases across sections, deep nesting, huge names
 	out = append(out,
 		"services:\n  ? [a, b]\n  : {value: X}\n",
@@ -251,7 +275,7 @@ var rePanic = regexp.MustCompile(`(?m)^(panic:|fatal error:|goroutine \d+ \[)`)
 
 func checkC12(c *Ctx) error {
 	nMut := c.Pick(9000, 120000)
-	c.Rule = fmt.Sprintf("(1) %d seeded byte/token-level mutants of a corpus of valid and invalid configurations (flip, delete, duplicate, splice, snippet insertion incl. anchors/aliases/tags/merge keys/timestamps/huge numbers, indentation changes, long tokens) x random flag sets x 1-3 files and patterns x (a quarter of the runs) an extra directory entry the patterns also match (dangling link, link loop, directory, link to a directory or device, empty file, glob characters or 240 bytes in the name, the same file through a link), through the real binary under a watchdog; (2) schema-aware type confusions: every value position of a template configuration replaced by 20 node kinds, every scalar position by 21 !!binary byte strings that are not valid UTF-8 (next to % tokens and argument sigils), plus non-scalar keys, merge keys, aliases across sections, 10 000-deep nesting, 1 MiB names; (3) thorough tier: native coverage-guided fuzzing of the build command in-process (go test -fuzz, iteration-bounded). Oracle: exit status in {0,1}, no panic/fatal error/goroutine dump on stderr, CLI contract (report consistent; failing run leaves -o untouched; success leaves a parsable file), run time under 1000x the normal time (a timeout only counts after it reproduces twice). distinct = distinct input bytes; non-trivial = input differs from every corpus entry", nMut)
+	c.Rule = fmt.Sprintf("(1) %d seeded byte/token-level mutants of a corpus of valid and invalid configurations (flip, delete, duplicate, splice, snippet insertion incl. anchors/aliases/tags/merge keys/timestamps/huge numbers, indentation changes, long tokens) x random flag sets x 1-3 files and patterns x (a quarter of the runs) an extra directory entry the patterns also match (dangling link, link loop, directory, link to a directory or device, empty file, glob characters or 240 bytes in the name, the same file through a link), through the real binary under a watchdog; (2) schema-aware type confusions: every value position of a template configuration replaced by 20 node kinds, every position holding a Go reference by 45 import-path shapes (one segment, /vN suffixes, dots, dashes, reserved names; quoted and unquoted), every scalar position by 21 !!binary byte strings that are not valid UTF-8 (next to % tokens and argument sigils), plus non-scalar keys, merge keys, aliases across sections, 10 000-deep nesting, 1 MiB names; (3) thorough tier: native coverage-guided fuzzing of the build command in-process (go test -fuzz, iteration-bounded). Oracle: exit status in {0,1}, no panic/fatal error/goroutine dump on stderr, CLI contract (report consistent; failing run leaves -o untouched; success leaves a parsable file), run time under 1000x the normal time (a timeout only counts after it reproduces twice). distinct = distinct input bytes; non-trivial = input differs from every corpus entry", nMut)
 	c.Assumptions = []string{"inputs whose reference structure would have very many elementary cycles are excluded by construction (mutants of sparse configurations; the fuzz target skips inputs with more than 40 reference markers)", "coverage-guided mutation is not seedable: crashers are saved as replay files"}
 	w := c.W
 	corpus := c12Corpus(c.Seed, c.Pick(120, 600))
